@@ -394,6 +394,68 @@ theorem set_of_not_contains {d : PyDict κ ν} {k : κ} (h : contains eq d k = f
     simp only [Bool.false_eq_true, if_false, List.cons_append]
     rw [ih ((contains_false_iff _ _).2 (fun p hp => h' p (List.mem_cons_of_mem _ hp)))]
 
+theorem contains_set_self (hrefl : ∀ a, eq a a = true) (d : PyDict κ ν) (k : κ) (v : ν) : contains eq (set eq d k v) k = true := by
+  induction d with
+  | nil => simp [contains, get?_cons, hrefl]
+  | cons x r ih =>
+    obtain ⟨k0, v0⟩ := x
+    rw [set_cons]
+    cases h0 : eq k0 k
+    · simp only [Bool.false_eq_true, if_false, contains, get?_cons, h0]; exact ih
+    · simp [contains, get?_cons, h0]
+
+/-- `d[k] = v; del d[k]` is `del d[k]` (or nothing when `k` was not there) -/
+theorem erase_set_self (hrefl : ∀ a, eq a a = true) (d : PyDict κ ν) (k : κ) (v : ν) : erase eq (set eq d k v) k = erase eq d k := by
+  induction d with
+  | nil => simp [erase_cons, hrefl]
+  | cons x r ih =>
+    obtain ⟨k0, v0⟩ := x
+    rw [set_cons]
+    cases h0 : eq k0 k
+    · simp only [Bool.false_eq_true, if_false, erase_cons, h0, ih]
+    · simp [erase_cons, h0]
+
+theorem values_erase_sublist (d : PyDict κ ν) (k : κ) : List.Sublist (values (erase eq d k)) (values d) :=
+  List.Sublist.map _ (erase_sublist d k)
+
+theorem isEmpty_values (d : PyDict κ ν) : (values d).isEmpty = isEmpty d := by
+  cases d <;> rfl
+
+theorem get?_of_mem (hk : KeyEq eq) {d : PyDict κ ν} (h : WF eq d) {p : κ × ν} (hp : p ∈ d) : get? eq d p.1 = some p.2 := by
+  induction d with
+  | nil => cases hp
+  | cons x r ih =>
+    obtain ⟨k0, v0⟩ := x
+    obtain ⟨h1, h2⟩ := WF_cons.1 h
+    rw [get?_cons]
+    rcases List.mem_cons.1 hp with rfl | hp
+    · simp [hk.refl]
+    · have := h1 p hp
+      simp only [this, Bool.false_eq_true, if_false]
+      exact ih h2 hp
+
+theorem mem_of_get? {d : PyDict κ ν} {k : κ} {v : ν} (h : get? eq d k = some v) : ∃ k', (k', v) ∈ d ∧ eq k' k = true := by
+  induction d with
+  | nil => cases h
+  | cons x r ih =>
+    obtain ⟨k0, v0⟩ := x
+    rw [get?_cons] at h
+    split at h
+    · rename_i h0
+      cases h
+      exact ⟨k0, List.mem_cons_self, h0⟩
+    · obtain ⟨k', hm, he⟩ := ih h
+      exact ⟨k', List.mem_cons_of_mem _ hm, he⟩
+
+theorem WF_setdefault {d : PyDict κ ν} (h : WF eq d) (k : κ) (v : ν) : WF eq (setdefault eq d k v).2 := by
+  unfold setdefault
+  cases hg : get? eq d k with
+  | some v' => exact h
+  | none =>
+    have hc : contains eq d k = false := by simp [contains, hg]
+    rw [← set_of_not_contains hc]
+    exact WF_set h k v
+
 theorem WF_append_singleton {d : PyDict κ ν} (h : WF eq d) {k : κ} (hc : contains eq d k = false) (v : ν) :
     WF eq (d ++ [(k, v)]) := by
   rw [← set_of_not_contains hc]; exact WF_set h k v
